@@ -131,6 +131,12 @@ def check_effects(ck, prog, fn, f_pred):
         ok = kind in allowed
         if kind == 'delete':
             n_del += 1
+        if kind.startswith('helper:') and kind.split(':')[2] in allowed:
+            # an allowed operation performed by a helper: the range rule (D2) reads the deletion
+            # site in supersample itself and cannot follow it into the helper
+            raise AnalysisError('supersample delegates "%s" on the vertex list to helper %s (%s); '
+                                'the deletion-range rule cannot follow it'
+                                % (kind.split(':')[2], kind.split(':')[1], fn.loc(n)))
         ck.ob('C09-D1-deletion-only', 'supersample::use[%s@%s]' % (kind, ast.unparse(
             parent_map(fn.node).get(n))[:40]), ok,
               'the vertex list is used as "%s" (%s): only len(), slicing into a copy and '
